@@ -39,9 +39,9 @@ type AggState struct {
 }
 
 type aggDelta struct {
-	Group []*smt.Term
-	D     *smt.Term
-	Cond  *smt.Term
+	Row  Val // snapshot of the row value
+	Key  []*smt.Term
+	Sign int
 }
 
 type Bank struct {
@@ -132,6 +132,8 @@ func (ex *Exec) amtOf(v Val, d *smt.Term) *smt.Term {
 		return smt.Ite(smt.Eq(d, f[0].(*smt.Term)), f[1].(*smt.Term), smt.IntC(0))
 	case *scaledCoins:
 		return smt.Mul(c.M, ex.amtOf(c.C, d))
+	case *minCoins:
+		return smt.Min(ex.amtOf(c.A, d), ex.amtOf(c.B, d))
 	case *NilV:
 		return smt.IntC(0)
 	}
@@ -167,6 +169,16 @@ func (ex *Exec) support(v Val) (ds []*smt.Term, finite bool) {
 		ds = append(ds, f[0].(*smt.Term))
 	case *scaledCoins:
 		return ex.support(c.C)
+	case *minCoins:
+		d1, f1 := ex.support(c.A)
+		d2, f2 := ex.support(c.B)
+		if f1 {
+			return d1, true
+		}
+		if f2 {
+			return d2, true
+		}
+		return append(d1, d2...), false
 	case *NilV:
 	default:
 		ex.abort("support: unsupported coins value %T", v)
@@ -390,12 +402,16 @@ func (ex *Exec) tableHavoc(w *World, id string) {
 
 // ---- aggregates -------------------------------------------------------------------------
 
-// AggDecl is a ghost aggregate: Σ over the rows of a table of Value(row), grouped by Group(row).
+// AggDecl is a ghost aggregate: Σ over the rows of a table of Value(row, key, params). A
+// grouped sum is written with an ite on the parameter. It is maintained by the semantics of
+// the table primitives (set adds the new row's term and removes the old one's), so no code
+// is trusted for it; it is exact and unbounded in the number of rows.
 type AggDecl struct {
 	Name    string
 	TableID string
 	RowType types.Type
-	Eval    func(ex *Exec, row Val, key []*smt.Term) (group []*smt.Term, value *smt.Term)
+	Params  []string
+	Eval    func(ex *Exec, row Val, key []*smt.Term, params []*smt.Term) *smt.Term
 }
 
 func (ex *Exec) aggsOn(id string) []*AggDecl {
@@ -427,23 +443,30 @@ func (ex *Exec) aggUpdate(w *World, id string, key []*smt.Term, newVal *BytesV) 
 	for _, d := range decls {
 		a := ex.aggState(w, d.Name)
 		if old != nil {
-			row := ex.unmarshalTo(old, d.RowType)
-			g, v := d.Eval(ex, row, key)
-			a.Deltas = append(a.Deltas, aggDelta{Group: g, D: smt.Neg(v)})
+			a.Deltas = append(a.Deltas, aggDelta{Row: ex.unmarshalTo(old, d.RowType), Key: key, Sign: -1})
 		}
 		if newVal != nil {
-			row := ex.unmarshalTo(newVal, d.RowType)
-			g, v := d.Eval(ex, row, key)
-			a.Deltas = append(a.Deltas, aggDelta{Group: g, D: v})
+			a.Deltas = append(a.Deltas, aggDelta{Row: ex.unmarshalTo(newVal, d.RowType), Key: key, Sign: +1})
 		}
 	}
 }
 
-func (ex *Exec) aggValue(w *World, name string, group []*smt.Term) *smt.Term {
+func (ex *Exec) aggValue(w *World, name string, params []*smt.Term) *smt.Term {
 	a := ex.aggState(w, name)
-	r := smt.App(a.Base, smt.Int, group...)
+	var decl *AggDecl
+	for _, d := range ex.Cfg.Aggs {
+		if d.Name == name {
+			decl = d
+		}
+	}
+	r := smt.App(a.Base, smt.Int, params...)
 	for _, d := range a.Deltas {
-		r = smt.Add(r, smt.Ite(keysEq(group, d.Group), d.D, smt.IntC(0)))
+		v := decl.Eval(ex, copyDeep(d.Row), d.Key, params)
+		if d.Sign < 0 {
+			r = smt.Sub(r, v)
+		} else {
+			r = smt.Add(r, v)
+		}
 	}
 	return r
 }
